@@ -410,3 +410,70 @@ Fixpoint sched_check_all (cs : list sched_case) (os : list sched_obs) : bool :=
   end.
 Definition c05_check (x : list sched_case * list sched_obs) : bool := sched_check_all (fst x) (snd x).
 Definition c05_model (x : list sched_case) : list sched_obs := map sched_model x.
+
+(** * The run loop with an arbitrary tie-breaking order (C05)
+
+    The listing order of the components only decides which of several equally advanced components
+    [list.sort] puts first.  [run_prio prio] runs the composition with the components considered in the
+    order [prio] (a list of component indices) instead of the list order. *)
+Fixpoint pick_prio (cs : composition) (st : state) (prio : list nat) (best : option nat) : option nat :=
+  match prio with
+  | [] => best
+  | k :: r =>
+      let best' :=
+        if is_time cs k then
+          match best with
+          | None => Some k
+          | Some b => if s_time st k <? s_time st b then Some k else Some b
+          end
+        else best in
+      pick_prio cs st r best'
+  end.
+
+Fixpoint run_loop_pick (pick : state -> option nat) (fuel : nat) (cs : composition) (endt : Z) (st : state)
+  (acc : list ev) : outcome * state * list ev :=
+  match fuel with
+  | O => (OFuel, st, acc)
+  | S fuel' =>
+      match pick st with
+      | None => (OOk, st, acc)
+      | Some c =>
+          match update_rec (rec_fuel cs) cs st acc c [] 0 with
+          | UUpdated _ st' acc' None =>
+              if any_running st' O cs endt then run_loop_pick pick fuel' cs endt st' acc' else (OOk, st', acc')
+          | UUpdated _ st' acc' (Some ETime) => (OTime, st', acc')
+          | UUpdated _ st' acc' (Some ENoData) => (ONoData, st', acc')
+          | UUpdated _ st' acc' (Some EFuel) => (OFuel, st', acc')
+          | UNone => (OFuel, st, acc)
+          | UCirc => (OCirc, st, acc)
+          | UFuel => (OFuel, st, acc)
+          end
+      end
+  end.
+
+Definition run_prio (prio : list nat) (fuel : nat) (cs : composition) (endt : Z) : outcome * state * list ev :=
+  run_loop_pick (fun st => pick_prio cs st prio None) fuel cs endt (init_state cs) [].
+
+Definition final_counts (cs : composition) (st : state) : list nat :=
+  map (fun k => if is_time cs k then s_cnt st k else O) (seq O (length cs)).
+
+(** C05 correspondence: the variant (listed in the order [prio]) observed on the implementation has, mapped back
+    to the base numbering, the final times of [run_prio prio] on the base composition. *)
+Definition prio_check (base : sched_case) (prio : list nat) (variant_times : list Z) : bool :=
+  let '(cs, endt, fuel) := base in
+  let '(o, st, _) := run_prio prio fuel cs endt in
+  match o with
+  | OOk => list_eqb Z.eqb (map (fun k => if is_time cs k then s_time st k else 0) prio) variant_times
+  | _ => true
+  end.
+
+(** C05 correspondence, second half: every variant also agrees with [run_prio] on the base composition *)
+Fixpoint prio_check_all (base : sched_case) (vs : list (list nat)) (os : list sched_obs) : bool :=
+  match vs, os with
+  | [], [] => true
+  | p :: vr, (_, _, tms) :: or => prio_check base p tms && prio_check_all base vr or
+  | _, _ => false
+  end.
+Definition c05_check2 (x : (sched_case * list (list nat) * list sched_case) * list sched_obs) : bool :=
+  let '(base, prios, variants) := fst x in
+  sched_check_all variants (snd x) && prio_check_all base prios (snd x).
